@@ -1,6 +1,7 @@
 (* Ops/C02.v — protocol entry points for property C02 (incremental construction of ordinal instances).
    c02.history  payload: ((kind data) ...)   kind 0 AppendOrder (a ...) | 1 AppendArray ((a ...) ...)
                                            | 2 AppendList (order ...)  | 3 AppendVoteMap ((order k) ...)
+                                           | 6 AppendVoteMap (wrapper rows)  rows = ((a ...) ...)
                 answer : the observation of the fresh state followed by one observation per operation. *)
 From Coq Require Import List ZArith NArith String.
 From PrefVerif Require Import Lib.Val Lib.Dec Model.OrdState.
@@ -14,7 +15,8 @@ Definition d_op (v : val) : op :=
   | 0 => AppendOrder (d_class (dnth 1 v))
   | 1 => AppendArray (dlist d_class (dnth 1 v))
   | 2 => AppendList (dlist d_order (dnth 1 v))
-  | _ => AppendVoteMap (dlist (dpair d_order dN) (dnth 1 v))
+  | 3 => AppendVoteMap (dlist (dpair d_order dN) (dnth 1 v))
+  | _ => AppendVoteMap (wrapper (dlist d_class (dnth 1 v)))    (* 6: populate_X with the sampler's raw rows *)
   end.
 
 Definition e_class (c : list N) : val := elist eN c.
@@ -61,4 +63,7 @@ Fixpoint observe_run (s : state) (ms : list order) (ops : list op) : list val :=
 Definition op_history (v : val) : val :=
   VL (observe false [] init :: observe_run init [] (dlist d_op v)).
 
-Definition ops : optable := [ ("c02.history", op_history) ].
+(* c02.wrapper  payload: the sampler's rows ((a ...) ...) ; answer: prefsampling_ordinal_wrapper's vote map *)
+Definition op_wrapper (v : val) : val := elist (epair e_order eN) (wrapper (dlist d_class v)).
+
+Definition ops : optable := [ ("c02.history", op_history); ("c02.wrapper", op_wrapper) ].
